@@ -410,6 +410,19 @@ func iterElems(v V) ([]V, bool) {
 		return v.L, true
 	case "range":
 		return rangeElems(v), true
+	case "iter":
+		// the iterator views of a string / bytes (ASCII: bytes = code points)
+		b := []byte(v.str())
+		out := make([]V, len(b))
+		for i, c := range b {
+			switch v.M {
+			case "codepoints", "elems":
+				out[i] = vStr(string([]byte{c}))
+			default: // codepoint_ords, elem_ords, belems
+				out[i] = vInt(int64(c))
+			}
+		}
+		return out, true
 	}
 	return nil, false
 }
@@ -800,6 +813,19 @@ func listMethod(name string, xs []V, args []V) (V, *V, bool) {
 
 func builtinSpec(name string, args []V) (V, bool) {
 	switch name {
+	case "list", "tuple":
+		if len(args) > 1 {
+			return errV, true
+		}
+		var el []V
+		if len(args) == 1 {
+			e, ok := iterElems(args[0])
+			if !ok {
+				return errV, true
+			}
+			el = e
+		}
+		return V{T: name, L: append([]V{}, el...)}, true
 	case "reversed", "any", "all":
 		if len(args) != 1 {
 			return errV, true
@@ -1217,8 +1243,12 @@ func oracle(c *Case) (V, *V, bool) {
 // sortIntKeys reports whether every key of a sort case is an int (the fragment modelled in Coq).
 func sortIntKeys(c *Case) bool {
 	var elems []V
-	if len(c.Args) == 1 && (c.Args[0].T == "list" || c.Args[0].T == "tuple") {
-		elems = c.Args[0].L
+	if len(c.Args) == 1 {
+		el, ok := iterElems(c.Args[0])
+		if !ok {
+			return false
+		}
+		elems = el
 	} else if c.Name != "sorted" && len(c.Args) >= 2 {
 		elems = c.Args
 	} else {
